@@ -140,6 +140,45 @@ end Pelite.PtrT
 namespace Pelite.PtrT
 open Pelite Pelite.Pe Pelite.Spec
 
+/-- **A mapped view, sentinel-terminated array**: walking the table element by element with `Pir::at(i)` sees exactly
+what `derva_slice_s` returned — every element before the terminator is readable at `r + i·size`, is the `i`-th piece of
+the returned array and differs from the sentinel, and the element right behind the array is readable and IS the sentinel. -/
+theorem C05_sentinel_elements_view (v : View) (hk : v.kind = .view) (r size align sentinel : Nat) (ref : Ref)
+    (hs : 1 ≤ size) (hal : size % align = 0)
+    (h : v.dervaSliceS (.rva r) size align sentinel = .ok ref) :
+    ∃ n, ref.len = n * size ∧
+      (∀ i, i < n → v.derva (.rva (r + i * size)) size align = .ok ⟨ref.off + i * size, size, align⟩ ∧
+                    leN v.b (ref.off + i * size) size ≠ sentinel) ∧
+      v.derva (.rva (r + n * size)) size align = .ok ⟨ref.off + n * size, size, align⟩ ∧
+      leN v.b (ref.off + n * size) size = sentinel := by
+  -- the untyped slice the scan runs over
+  have hat : ∃ s, v.at (.rva r) 0 align = .ok s := by
+    unfold View.dervaSliceS View.dervaSliceF at h
+    cases hh : v.at (.rva r) 0 align with
+    | ok s => exact ⟨s, rfl⟩
+    | _ => rw [hh] at h; cases h
+  obtain ⟨s, hs0⟩ := hat
+  obtain ⟨n, rfl, hn1, hn2, hn3⟩ := (C05_derva_slice_s v (.rva r) size align sentinel hs s hs0).1 ref h
+  have hs' := (C05_view_slice_iff v hk r 0 align s).1 hs0
+  obtain ⟨h0, hp2, ha, hle, _, rfl⟩ := hs'
+  have hn1' : (n + 1) * size ≤ v.img.bytes.size - r := hn1
+  have elem : ∀ i, i ≤ n → v.derva (.rva (r + i * size)) size align = .ok ⟨r + i * size, size, align⟩ := by
+    intro i hi
+    have hlt : (i + 1) * size ≤ (n + 1) * size := Nat.mul_le_mul_right size (by omega)
+    have hdiv : (i * size) % align = 0 := by rw [Nat.mul_mod, hal]; simp
+    rw [Nat.add_mul, Nat.one_mul] at hlt
+    apply (C05_derva v _ _ _ _).2
+    refine ⟨⟨r + i * size, v.img.bytes.size - (r + i * size), align⟩, ?_, rfl⟩
+    show v.slice (r + i * size) size align = _
+    apply (C05_view_slice_iff v hk _ _ _ _).2
+    generalize i * size = d at *
+    generalize (n + 1) * size = m at *
+    refine ⟨by omega, hp2, ?_, by omega, by omega, rfl⟩
+    rw [← Nat.add_assoc, Nat.add_mod, ha, hdiv]; simp
+  refine ⟨n, rfl, ?_, elem n (Nat.le_refl _), hn2⟩
+  intro i hi
+  exact ⟨elem i (by omega), hn3 i hi⟩
+
 /-- the exact success condition of the VA path on a mapped view -/
 theorem readSection_ok_iff (img : Img) (imageBase soi va min align : Nat) (ref : Ref) :
     readSection img imageBase soi va min align = .ok ref ↔
